@@ -68,12 +68,12 @@ pub fn compare(make: &dyn Fn(usize) -> String, ks: &[usize], what: &str) -> Case
 pub fn check(ctx: &Ctx) -> i32 {
     let start = Instant::now();
     let mut ev = Evidence::default();
-    ev.rule = "scalable families parameterised by (construct kinds, depth k, number of constructors 2..4, amount of trailing code): k sequenced branch points (conditional, match over c constructors, data-typed match feeding a match = critical pairs, conditional with codata result, conditionals in operand position), k nested branch points (conditional / match), k branch points nested in scrutinee position (matches of matches, destructor chains), k nested branch points whose result has type i64 / a four-constructor data type / a list / a codata type with one / with two destructors, sitting in a let binding or directly in a call argument, branching by a conditional or a four-way match, each sequenced kind also with every kind of statement directly following the branch point (call of a top-level definition with one/several arguments, print, constructor + match, destructor invocation, label + jump, arithmetic, closure creation + invocation), and seeded random mixtures of kinds and followers; oracle: for k = 4..8 every stage's size (characters of printed Core, focused Core, AxCut, linearized AxCut; lines of x86-64/AArch64/RISC-V assembly) at depth 2k is at most 16x the size at depth k (degree <= 4; duplication of continuations gives a factor >= 2^k), and all stages finish. Non-trivial: every compiled family; distinct by hash of the family parameters.".into();
+    ev.rule = "scalable families parameterised by (construct kinds, depth k, number of constructors 2..4, amount of trailing code): k sequenced branch points (conditional, match over c constructors, data-typed match feeding a match = critical pairs, conditional with codata result, conditionals in operand position, a destructor invoked directly on a codata-typed conditional / match, a conditional in a constructor argument or in the argument of a destructor invocation), k nested branch points (conditional / match), k branch points nested in scrutinee position (matches of matches, destructor chains), k nested branch points whose result has type i64 / a four-constructor data type / a list / a codata type with one / with two destructors, sitting in a let binding or directly in a call argument, branching by a conditional or a four-way match, each sequenced kind also with every kind of statement directly following the branch point (call of a top-level definition with one/several arguments, print, constructor + match, destructor invocation, label + jump, arithmetic, closure creation + invocation), and seeded random mixtures of kinds and followers; oracle: for k = 4..8 every stage's size (characters of printed Core, focused Core, AxCut, linearized AxCut; lines of x86-64/AArch64/RISC-V assembly) at depth 2k is at most 16x the size at depth k (degree <= 4; duplication of continuations gives a factor >= 2^k), and all stages finish. Non-trivial: every compiled family; distinct by hash of the family parameters.".into();
     ev.assumptions = vec!["size is measured on the printed form of each stage".into()];
     let mut report = Report { violations: vec![], infra_errors: vec![] };
     let ks: Vec<usize> = ctx.tier.pick(vec![4, 6, 8], vec![4, 5, 6, 7, 8]);
     let mut fixed: Vec<(String, Box<dyn Fn(usize) -> String + Sync>)> = vec![];
-    for kind in 0..6usize {
+    for kind in 0..KINDS {
         for ctors in [2usize, 4] {
             fixed.push((format!("sequenced kind {kind}, {ctors} constructors"), Box::new(move |k| size_family(&[kind], k, ctors, 3))));
         }
@@ -139,7 +139,7 @@ pub fn replay(_ctx: &Ctx, sub: &str, bytes: &[u8], case: &serde_json::Value) -> 
         return compare(&|k| size_family_with(&kinds, &follows, k, ctors, trailing), &[k0], "random mixture");
     }
     let name = case["name"].as_str().unwrap_or("");
-    for kind in 0..6usize {
+    for kind in 0..KINDS {
         for ctors in [2usize, 4] {
             if name == format!("sequenced kind {kind}, {ctors} constructors") {
                 return compare(&move |k| size_family(&[kind], k, ctors, 3), &[4, 6, 8], name);
